@@ -241,6 +241,17 @@ def gen(rng, nd, nt, tier):
     return seqs
 
 
+def build(ctx, *a, **k):
+    """ctx.build_harness, retried once after waiting for the shared simgrid build (another check may be relinking it)"""
+    nb = len(ctx.broken)
+    h = ctx.build_harness(*a, **k)
+    if h is None:
+        del ctx.broken[nb:]
+        ctx.ensure_simgrid(["simgrid"])
+        h = ctx.build_harness(*a, **k)
+    return h
+
+
 def run(ctx):
     ctx.cov["rule"] = ("operation sequences drawn from splitmix64(VERIF_SEED): dynar classes mixed/grow/shrink (8% of the calls "
                        "are bounds violations run in a forked child), dict classes small (4-letter alphabet: collisions in the "
@@ -253,7 +264,7 @@ def run(ctx):
     ctx.ensure_simgrid(["simgrid"])
     ctx.lean_prove()
     drv = ctx.lean_exe()
-    h = ctx.build_harness("harness.cpp")
+    h = build(ctx, "harness.cpp")
     if not (drv and h):
         return
     if ctx.replay:
